@@ -85,7 +85,7 @@ func init() {
 		Shards: shards(12, 16),
 		Meta: func(tier string) rt.Meta {
 			return rt.Meta{Level: "exploration", MinEvals: 20000, MinDistinct: 100,
-				Rule:        "differential against the kernel and path/filepath (chroot on tmpfs), MemFS only: link graphs over 3 link names + a directory (with a marker child) + a file in /w, each link's target drawn from 17 shapes (sibling, ../w/x, absolute, itself and the other links - 2- and 3-cycles, chains -, missing, through a directory, through another link, '.', '..', '/'); every query path of <= 3 components over the names; the queries Stat/Lstat/ReadFile/ReadDir/EvalSymlinks/Readlink on every path without rebuilding, and 17 mutating calls (each on a freshly rebuilt graph, full tree compared afterwards). A family of graphs whose directory names are string prefixes of their siblings (a, ab, abc, /w and /wa) with links leaving a for ab/abc. Chains of length 1..256 for the loop budget. Quick samples the graph space by seed, thorough enumerates all 17^3 graphs for the queries. Signature = call | pre-state class of the operand (link->file/dir/missing/loop, via-link, ...) | outcome; non-trivial: all (every case has links).",
+				Rule:        "differential against the kernel and path/filepath (chroot on tmpfs), MemFS only: link graphs over 3 link names + a directory (with a marker child) + a file in /w, each link's target drawn from 17 shapes (sibling, ../w/x, absolute, itself and the other links - 2- and 3-cycles, chains -, missing, through a directory, through another link, '.', '..', '/'); every query path of <= 3 components over the names; the queries Stat/Lstat/ReadFile/ReadDir/EvalSymlinks/Readlink on every path without rebuilding, and 17 mutating calls (each on a freshly rebuilt graph, full tree compared afterwards), plus the sequence Link(link, other name) then Remove/Rename-over/RemoveAll of the first name followed by queries through the other name. A family of graphs whose directory names are string prefixes of their siblings (a, ab, abc, /w and /wa) with links leaving a for ab/abc. Chains of length 1..256 for the loop budget. Quick samples the graph space by seed, thorough enumerates all 17^3 graphs for the queries. Signature = call | pre-state class of the operand (link->file/dir/missing/loop, via-link, ...) | outcome; non-trivial: all (every case has links).",
 				Assumptions: []string{"query paths and link targets are lexically clean; unclean spellings are defined by Clean() in C01"}}
 		},
 		Timeout: func(tier string) int {
@@ -153,6 +153,22 @@ func init() {
 					}
 					sr := l.step(o)
 					l.report(0o022, sr, false)
+				}
+				// a second name for a link, then the first name goes away: the link lives on under the other name
+				if c04Build(l, g) {
+					lk := "/w/" + []string{"l1", "l2", "l3"}[r.IntN(3)]
+					second := []fsx.Op{{K: "Remove", P: lk}, {K: "Rename", P: "/w/f", Q: lk}, {K: "RemoveAll", P: lk}}[r.IntN(3)]
+					for _, o := range []fsx.Op{{K: "Link", P: lk, Q: "/w/hard"}, second} {
+						sr := l.step(o)
+						if l.report(0o022, sr, false); sr.fatal || sr.disagree {
+							break
+						}
+					}
+					for _, q := range []string{"Lstat", "Readlink", "Stat", "ReadFile", "EvalSymlinks"} {
+						for _, qp := range []string{"/w/hard", "/w/hard/m"} {
+							l.report(0o022, l.stepQuery(fsx.Op{K: q, P: qp}), false)
+						}
+					}
 				}
 			}
 			// names that are string prefixes of their siblings: a link whose target leaves its directory for a sibling
